@@ -159,6 +159,13 @@ where
             self.hash_item(*key, weight);
         }
     } // end of hash_weigthed_hashmap
+    /// verification hook: copy of the m per-position minima
+    #[cfg(probminhash_verif)]
+    pub fn verif_registers(&self) -> Vec<f64> {
+        (0..self.m)
+            .map(|k| self.maxvaluetracker.get_value(k))
+            .collect()
+    }
 } // end of impl ProbMinHash3
 
 /// implementation of the algorithm ProbMinHash3a as described in Etrl.  
@@ -368,6 +375,13 @@ where
     /// return final signature.
     pub fn get_signature(&self) -> &Vec<D> {
         &self.signature
+    }
+    /// verification hook: copy of the m per-position minima
+    #[cfg(probminhash_verif)]
+    pub fn verif_registers(&self) -> Vec<f64> {
+        (0..self.m)
+            .map(|k| self.maxvaluetracker.get_value(k))
+            .collect()
     }
 } // end of ProbMinHash3a
 
